@@ -56,13 +56,12 @@ bool H5Group::objectOfType(const std::string &name, H5O_type_t type) const {
         return false;
     }
 
-    HErr err = H5Oget_info(obj, &info);
+    // only the type is needed: the basic fields do not touch the heaps and B-trees of the object
+    HErr err = H5Oget_info2(obj, &info, H5O_INFO_BASIC);
+    H5Oclose(obj);
     err.check("Could not obtain object info");
 
-    bool res = info.type == type;
-
-    H5Oclose(obj);
-    return res;
+    return info.type == type;
 }
 
 ndsize_t H5Group::objectCount() const {
